@@ -2386,7 +2386,14 @@ impl IdmServerProxyWriteTransaction<'_> {
             self.reload_oauth2_client_providers()?;
         }
 
-        // Commit everything.
+        // Commit the query server (and with it the database) first: it is the only step that
+        // can still fail. The in-memory IDM state is published only once storage has succeeded,
+        // so a failed commit leaves no trace for readers.
+        #[cfg(feature = "verif-hooks")]
+        crate::verif::txn::pause("w.qs");
+        self.qs_write.commit()?;
+
+        // Publish everything. None of these can fail.
         #[cfg(feature = "verif-hooks")]
         crate::verif::txn::pause("w.apps");
         self.applications.commit();
@@ -2401,9 +2408,7 @@ impl IdmServerProxyWriteTransaction<'_> {
         self.oauth2_client_providers.commit();
 
         trace!("cred_update_session.commit");
-        #[cfg(feature = "verif-hooks")]
-        crate::verif::txn::pause("w.qs");
-        self.qs_write.commit()
+        Ok(())
     }
 }
 
